@@ -187,6 +187,7 @@ func TestPrivateUntilCommitAndCopies(t *testing.T) {
 		vk := gen.Pick(rt, ks, "valuekind")
 		h := vk.hooks
 		h.TimeAware = true
+		h.MaxLookupBlocks = 80 // capacity (200 entries per key, remembered answers included) is C06's matter: see its known findings
 		tree := sctree.Gen(rt, sctree.Params{MaxBlocks: gen.Pick(rt, []int{3, 6, 12, 24}, "maxblocks"), MaxKeys: 3, Forks: true, Abandoned: true, Twice: true})
 		r := sctree.NewRunner(rt, tree, h)
 		r.Run(gen.Uniform(rt, 10, 40+4*len(tree.Blocks), "nsteps"))
